@@ -54,11 +54,11 @@ def cases(tier, seed):
             for t in tg:
                 out.append({"shape": shape, "model": model, "scale": float(scales[int(rng.integers(4))]), "target": float(t),
                             "seed": int(rng.integers(2**31)), "nsites": int(rng.integers(2, 5)),
-                            "history": bool(rng.random() < 0.5), "batch": bool(rng.random() < 0.3), "conserved": bool(rng.random() < 0.4)})
+                            "history": bool(rng.random() < 0.5), "batch": bool(rng.random() < 0.3), "conserved": bool(rng.random() < 0.4), "dup": bool(rng.random() < 0.5)})
     # far beyond underflow (large trees): few cases
     for i in range(2 if tier == "quick" else 12):
         out.append({"shape": shapes[i % 3], "model": models[i % 4], "scale": 1.0, "target": -1000.0, "seed": int(rng.integers(2**31)),
-                    "nsites": 2, "history": bool(i % 2), "batch": False, "conserved": bool(i % 2)})
+                    "nsites": 2, "history": bool(i % 2), "batch": False, "conserved": bool(i % 2), "dup": bool(i % 3 == 0)})
     return out
 
 
@@ -95,6 +95,8 @@ def make(case, N):
     seqs = {}
     for i in range(N):
         seqs[names[i]] = "".join("ACGT"[alt[i, s] if dev[i, s] else maj[s]] for s in range(S))
+        if case.get("dup"):
+            seqs[names[i]] += seqs[names[i]][-1] * 2  # the last column three times: a site pattern of weight 3
     return {"tree": "unrooted", "bl_mode": "param", "branch_lengths": bl, "newick": rt.to_newick(root, lengths=False),
             "names": names, "seq_order": names, "subst": subst, "site": site, "datatype": {"kind": "nucleotide"},
             "seqs": seqs, "use_ambiguities": False, "use_tip_states": m.endswith("states")}
